@@ -18,6 +18,8 @@ def _impl(a):
 
 
 def _judge(a, out):
+    if "HARNESS-TIMEOUT" in out:
+        return [("c06gate -", out)]     # the real object never came back: judged as a failure of the property, not of the machine
     lines = []
     connected = False
     for act, o in zip(a["acts"], out.split(" ")):
@@ -50,15 +52,16 @@ def _body(rng):
 
 
 def gen(rng):
-    acts, connected = [], False
+    acts, connected, dead = [], False, False
     for _ in range(rng.choice([3, 6, 10, rng.randrange(1, 21)])):
         if connected:
-            a = rng.choice(["op", "opx", "disc", "disc", "op"])
+            a = rng.choice(["opeof", "disc", "opeof"] if dead else ["op", "opx", "disc", "disc", "op", "opeof"])
+            dead = dead or a == "opeof"
         else:
             a = rng.choice(["cok", "cok", "cref", "disc", "with", "withx"])
             a = _body(rng) if a == "withx" else a
         if a == "cok":
-            connected = True
+            connected, dead = True, False
         if a == "disc":
             connected = False
         acts.append(a)
@@ -69,9 +72,12 @@ def gen_any(rng):
     """no restriction on connect: connecting over an open connection is allowed too.  The client overwrites its writer; on this
     runtime (CPython >= 3.11.5) the unreferenced StreamWriter closes its transport, so the device still sees exactly one
     open connection while connected (model parameter reclaim = true, theorem sockets_exactly_all)"""
-    acts, connected = [], False
+    acts, connected, dead = [], False, False
     for _ in range(rng.randrange(2, 16)):
-        a = rng.choice(["cok", "cok", "cref", "disc", "with", "withx"] + (["op", "opx"] if connected else []))
+        a = rng.choice(["cok", "cok", "cref", "disc", "with", "withx"] + ((["opeof"] if dead else ["op", "opx", "opeof"]) if connected else []))
+        dead = dead or a == "opeof"
+        if a == "cok":
+            dead = False
         a = _body(rng) if a == "withx" else a
         if a == "cok":
             connected = True
@@ -103,7 +109,8 @@ FIXED = [{"api": t, "acts": acts} for t in ("type1", "type2") for acts in (
     ["disc", "disc", "cref", "cok", "op", "opx", "op", "disc", "disc", "cok", "disc"],
     ["withx", "with", "cok", "disc", "withx:TimeoutError", "cref", "cok", "opx", "disc", "withx:ConnectionResetError", "withx:CancelledError",
      "withx:KeyError", "cok", "disc"],
-    ["cok", "disc", "cok", "disc", "cok", "op", "disc"])]
+    ["cok", "disc", "cok", "disc", "cok", "op", "disc"],
+    ["cok", "op", "opeof", "opeof", "disc", "cok", "op", "disc"])]
 
 
 def streams(ctx):
